@@ -8,6 +8,7 @@ package proc
 // upstream's fetch log, sound under any timing.
 
 import (
+	"sort"
 	"bytes"
 	"compress/gzip"
 	"fmt"
@@ -125,6 +126,21 @@ func genC08(t *rapid.T) c08Scenario {
 			}
 		}
 	}
+	if rapid.IntRange(0, 2).Draw(t, "prefixPurge") == 0 && nk > 13 {
+		// both of two prefix-related keys are cached, the shorter one is purged, the memory is
+		// flushed by a burst over all keys, and the longer one is asked for again
+		short := rapid.IntRange(1, min(3, (nk-1)/10)).Draw(t, "ppShort")
+		long := short*10 + rapid.IntRange(0, min(9, nk-1-short*10)).Draw(t, "ppLong")
+		if long < nk {
+			sc.Keys[short].T = 30
+			for i := 10; i < nk; i++ {
+				sc.Keys[i] = sc.Keys[i/10]
+			}
+			at := rapid.IntRange(0, len(sc.Ops)).Draw(t, "ppAt")
+			macro := []c08Op{{K: "get", Key: long}, {K: "get", Key: short}, {K: "purge", Key: short}, {K: "burst", Key: 0, N: nk}, {K: "get", Key: long}, {K: "get", Key: short}}
+			sc.Ops = append(sc.Ops[:at:at], append(macro, sc.Ops[at:]...)...)
+		}
+	}
 	if kills == 0 {
 		sc.Ops = append(sc.Ops, c08Op{K: "burst", Key: 0, N: nk}, c08Op{K: "kill"})
 	}
@@ -166,7 +182,10 @@ func c08URI(caseTag string, key int, k c08Key) string {
 	return fmt.Sprintf("/c08/%s/k?size=%d&type=%s&cc=%d%s&v=%s-%d", caseTag, k.Size, typ, k.T, pad, caseTag, key)
 }
 
-func execC08(sc c08Scenario) *vstat.Outcome {
+func execC08(sc c08Scenario) *vstat.Outcome { return execC08x(sc, false) }
+
+// execC08x: judgeOtherKeys adds the oracle of C18's clause "other keys keep their entries"
+func execC08x(sc c08Scenario, judgeOtherKeys bool) *vstat.Outcome {
 	out := &vstat.Outcome{}
 	c08Once.Do(func() { c08Up = newEchoUpstream("U"); c08UpB = newEchoUpstream("V") })
 	dir, err := os.MkdirTemp("", "verif-c08-")
@@ -212,17 +231,17 @@ func execC08(sc c08Scenario) *vstat.Outcome {
 			return false
 		}
 		t0 := time.Now()
-		if !waitPort(srvAddr, 12*time.Second) {
+		if !waitPort(srvAddr, 40*time.Second) {
 			if !p.alive() {
 				out.Violate("C08", "no-restart", "pike did not start on the existing store (exited); output: %v", tail(p.errorLines(), 6))
 			} else {
-				out.Violate("C08", "no-restart", "pike did not serve within 12 s after the restart; output: %v", tail(p.errorLines(), 6))
+				out.Violate("C08", "no-restart", "pike did not serve within 40 s after the restart; output: %v", tail(p.errorLines(), 6))
 			}
 			return false
 		}
 		_ = t0
-		if sc.Two && !waitPort(srvAddrs[1], 12*time.Second) {
-			out.Violate("C08", "no-restart", "the second server did not listen within 12 s; output: %v", tail(p.errorLines(), 6))
+		if sc.Two && !waitPort(srvAddrs[1], 40*time.Second) {
+			out.Violate("C08", "no-restart", "the second server did not listen within 40 s; output: %v", tail(p.errorLines(), 6))
 			return false
 		}
 		return true
@@ -503,6 +522,59 @@ func execC08(sc c08Scenario) *vstat.Outcome {
 		}
 		restoredHit++
 	}
+	if judgeOtherKeys {
+		// C18: a purge of one key leaves the entries of the other keys alone. Within one instance
+		// (no stop in between) a cacheable response that was fetched and delivered is served again
+		// from memory or from the store while it is fresh; if, between that fetch and a later request
+		// for the same key through the same server, only OTHER keys were purged, the later request
+		// must not go back to the upstream. (Keys longer than a badger key are never persisted and
+		// are left out; so are requests within 1.5 s of the expiry.)
+		type fetchRec struct {
+			end   time.Time
+			epoch int
+		}
+		lastOK := map[[2]int]fetchRec{}
+		ordered := append([]*c08Resp{}, resps...)
+		sort.Slice(ordered, func(i, j int) bool { return ordered[i].Start.Before(ordered[j].Start) })
+		for _, r := range ordered {
+			if r.Err != "" || r.Code != 200 {
+				continue
+			}
+			k := sc.Keys[r.Key]
+			if k.T == 0 || k.Long {
+				continue
+			}
+			id := [2]int{r.Srv, r.Key}
+			_, contacted := byReq[r.ReqID]
+			if !contacted {
+				continue
+			}
+			if prev, ok := lastOK[id]; ok && prev.epoch == r.Epoch && r.Start.After(prev.end) && r.Start.Sub(prev.end).Seconds() < float64(k.T)-1.5 {
+				ownPurge, otherPurge := false, -1
+				for _, pr := range purges {
+					if pr.End.After(prev.end) && pr.Start.Before(r.Start) {
+						if pr.Key == r.Key {
+							ownPurge = true
+						} else {
+							otherPurge = pr.Key
+						}
+					}
+				}
+				// another request of the same key may have been in flight (and fetched) in between: only
+				// strictly sequential histories of this key are judged
+				overlap := false
+				for _, o := range ordered {
+					if o != r && o.Key == r.Key && o.Srv == r.Srv && o.End.After(prev.end) && o.Start.Before(r.Start) {
+						overlap = true
+					}
+				}
+				if !ownPurge && otherPurge >= 0 && !overlap {
+					out.Violate("C18", "other-key-lost", "key %d (lifetime %d s) was fetched and delivered through server %d, %.2f s later -- same instance, only key %d was purged in between -- a request for it went to the upstream again: the purge of another key took this key's entry with it (URIs: %q is a prefix of %q: %v)", r.Key, k.T, r.Srv, r.Start.Sub(prev.end).Seconds(), otherPurge, c08URI("T", otherPurge, sc.Keys[otherPurge]), c08URI("T", r.Key, k), strings.HasPrefix(c08URI("T", r.Key, k), c08URI("T", otherPurge, sc.Keys[otherPurge])))
+				}
+			}
+			lastOK[id] = fetchRec{r.End, r.Epoch}
+		}
+	}
 	// a request after a stored entry's expiry refetched
 	lastFetch := map[int]echoLog{}
 	for _, l := range logs {
@@ -556,4 +628,11 @@ func TestC08(t *testing.T) {
 // produced for another (method, Host, URI)
 func TestC06Store(t *testing.T) {
 	vstat.Run(t, "C06", "proc", genC08, execC08)
+}
+
+// TestC18Store: the same histories judged for C18's clause "other keys keep their entries": real
+// badger stores, keys whose URI is a proper prefix of another key's URI, purges through the
+// admin API, evictions from an 8-entry memory
+func TestC18Store(t *testing.T) {
+	vstat.Run(t, "C18", "proc", genC08, func(sc c08Scenario) *vstat.Outcome { return execC08x(sc, true) })
 }
